@@ -10,7 +10,7 @@ use serde_json::json;
 pub fn prop() -> Prop {
   Prop {
     id: "C16",
-    rule: "case = (producer: interval(p) on the virtual scheduler, from_iter over a counting iterator of 40 items, from_stream over a counting stream of 40 ready items; 0..3 intermediate operators that do not end the stream themselves (map, filter, tap, scan, skip, skip_while, start_with, distinct_until_changed, pairwise, buffer_with_count, finalize, box_it, on_complete, default_if_empty, on_error_map, complete_status); an early-terminating operator: take(n>=1), first, element_at, take_while, contains, all, take_until(hot notifier); the producer chain either is the main input of the cutter or sits in the second (notifier/other) position of merge / zip / combine_latest / with_latest_from / sample / buffer / skip_until / take_until whose main input is a scripted hot input, with the cutter on top; local and thread-safe builds; script of <= 10 emissions / clock advances). \
+    rule: "case = (producer: interval(p) on the virtual scheduler, from_iter over a counting iterator of 40 items, from_stream over a counting stream of 40 ready items; 0..3 intermediate operators that do not end the stream themselves (take(30+), take_while(true), skip_last, map, filter, tap, scan, skip, skip_while, start_with, distinct_until_changed, pairwise, buffer_with_count, finalize, box_it, on_complete, default_if_empty, on_error_map, complete_status); an early-terminating operator: take(n>=1), first, element_at, take_while, contains, all, take_until(hot notifier); the producer chain either is the main input of the cutter or sits in the second (notifier/other) position of merge / zip / combine_latest / with_latest_from / sample / buffer / skip_until / take_until whose main input is a scripted hot input, with the cutter on top; local and thread-safe builds; script of <= 10 emissions / clock advances). \
            Oracle (applied when the subscriber received its terminal): running the scheduler until idle terminates - after at most (number of periodic producers) further timer firings no timer is pending and no scheduled task is alive; a counting iterator is asked for at most one more item after the terminal; a counting stream is polled at most once more. Non-trivial: the terminal was caused by the cutter (not by the producer running out) and there is >= 1 intermediate operator or the producer is in notifier position. Distinct by hash(case).",
     assumptions: &["iterators and streams are bounded (40 items) so that a producer that is not stopped shows up as extra pulls, not as a hang"],
     parts: vec![Part { name: "producers", run: run_case, tape_len: 64, quick_cases: 600_000, thorough_cases: 12_000_000, exhaustive_depth: None, exhaustive_budget: 0, exh_quick: false }],
@@ -26,7 +26,13 @@ struct Case {
 }
 
 fn gen_mid(c: &mut dyn Choices) -> Un {
-  match c.pick(16) {
+  match c.pick(20) {
+    // early-terminating operators that will not trigger themselves but must pass the
+    // downstream "finished" state on to the producer
+    16 => Un::Take(30 + c.pick(10)),
+    17 => Un::TakeWhile(Pred::Const(true)),
+    18 => Un::TakeWhileInclusive(Pred::Const(true)),
+    19 => Un::SkipLast(1),
     0 => Un::Map(gen_mapf(c)),
     1 => Un::Filter(*c.one_of(&[Pred::Const(true), Pred::Even, Pred::Mod3])),
     2 => Un::Tap,
